@@ -138,7 +138,7 @@ def r4_bridge_failures(ctx):
         nm = q.rsplit(".", 1)[-1]
         msg = Obj(q, {"host": "H1", "worker": worker("H1"), "detail": "d", "task": "t"}, name=f"m-{nm}")
         sent = []
-        ip = Interp(repo, max_while=2, max_iter=0, call_models={
+        ip = Interp(repo, max_while=3, max_iter=0, call_models={
             "cascade.executor.comms.Listener.recv_messages": lambda run, a, k, n, f, _m=msg: [_m] if not getattr(run, 'model_sent', False) and not setattr(run, 'model_sent', True) else []})
         from ..evalx import AnyKeyDict
         env = {"self.heartbeat_checker": AnyKeyDict(True, Obj("cascade.executor.comms.GraceWatcher", {}, name="gw"), "heartbeat_checker"),
@@ -147,7 +147,12 @@ def r4_bridge_failures(ctx):
         ctx.evals(len(paths))
         for p in paths:
             sh = [e for e in p.effects if is_call(e, qual=f"{BR}.shutdown")]
-            if p.exit[0] != "raise" or not sh:
+            spin = [e for e in p.effects if e.kind == "loop_exit" and e.data.get("bound")]
+            if spin or p.exit[0] == "trunc":
+                ctx.violation("C05.R4", fi.qual, loc(fi), f"{nm} ends the wait",
+                              f"after a {nm} message (and nothing else to receive) recv_events keeps waiting: its receive loop is still running after "
+                              f"{ip.opts.max_while} further empty polls — the failure is never turned into a shutdown and the run hangs")
+            elif p.exit[0] != "raise" or not sh:
                 ctx.violation("C05.R4", fi.qual, loc(fi), f"{nm} fails the run",
                               f"a {nm} message ends recv_events with {p.exit[0]} and {len(sh)} shutdown call(s); it must shut the executors down and raise")
             else:
@@ -162,7 +167,7 @@ def r4_bridge_failures(ctx):
         env = {"self.heartbeat_checker": _AKD(True, Obj("cascade.executor.comms.GraceWatcher", {}, name="gw"), "heartbeat_checker"), "self.sender.hosts": {}}
         for p in ip.explore(fi, env=env):
             sh = [e for e in p.effects if is_call(e, qual=f"{BR}.shutdown")]
-            if p.exit[0] != "raise" or not sh:
+            if p.exit[0] != "raise" or not sh or any(e.kind == "loop_exit" and e.data.get("bound") for e in p.effects):
                 ctx.violation("C05.R4", fi.qual, loc(fi), "failure in the same batch as an event",
                               f"messages {[m.name for m in batch]} drained in one batch: recv_events ends with {p.exit[0]} and {len(sh)} shutdown call(s); the failure was acknowledged "
                               f"to its sender and is forgotten here, so the controller waits for ever for a task that failed")
@@ -222,7 +227,7 @@ def r7_teardown(ctx):
     else:
         ctx.ok("C05.R7", loc(fi), "terminate() is a no-op once terminating")
     risky = ("callback", "join", "shutdown")
-    ip = Interp(repo, raising=lambda d: d["name"].rsplit(".", 1)[-1] in risky,
+    ip = Interp(repo, raising=lambda d: d["name"].rsplit(".", 1)[-1] in risky, inline={"cascade.executor.runner.entrypoint.worker_address"},
                 call_models={("method", "is_alive"): lambda *a: True})
     for shm_alive in (True, False):
         for ds_alive in (True, False):
@@ -242,6 +247,9 @@ def r7_teardown(ctx):
                     ctx.ok("C05.R7", loc(fi), f"teardown | {row}")
     paths = ip.explore(fi, env={**base, "self.terminating": False})
     ctx.evals(len(paths))
+    wa = repo.func("cascade.executor.runner.entrypoint.worker_address")
+    wps = [q for q in Interp(repo).explore(wa, args={"workerId": W1}) if q.exit[0] == "return"]
+    w1_addr = vkey(wps[0].exit[1]) if len(wps) == 1 else "?"
     n = 0
     for p in paths:
         n += 1
@@ -252,6 +260,17 @@ def r7_teardown(ctx):
         raised = [e.data["from_call"].rsplit(".", 1)[-1] for e in p.effects if e.kind == "raise" and e.data.get("from_call")]
         if p.exit[0] != "return":
             ctx.violation("C05.R7", fi.qual, loc(fi), "terminate never raises", f"terminate() propagates an exception from {raised}: later teardown steps are skipped")
+        elif not raised and (p.heap.get("self.terminating") is not True):
+            ctx.violation("C05.R7", fi.qual, loc(fi), "terminate marks itself done",
+                          f"after a complete teardown self.terminating is {vkey(p.heap.get('self.terminating'))}: the atexit-registered second call repeats the teardown "
+                          f"(and the guard against re-entry from a failing step is gone)")
+        elif not raised and (sorted(vkey(e.data["args"][0]) for e in ws) != [w1_addr] or
+                             [vkey(e.data.get("recv_value")) for e in p.effects if e.kind == "call" and e.data.get("method") == "join"
+                              and getattr(e.data.get("recv_value"), "name", "") in ("p1",)] != ["`p1`"]):
+            ctx.violation("C05.R7", fi.qual, loc(fi), "each started worker stopped and joined",
+                          f"workers {{w0: started process p1, w1: never started}}: WorkerShutdown sent to {[vkey(e.data['args'][0])[:60] for e in ws]} (expected exactly "
+                          f"w0's address {w1_addr[:60]}), joins on {[vkey(e.data.get('recv_value')) for e in p.effects if e.kind == 'call' and e.data.get('method') == 'join']} — a started "
+                          f"worker that is not told to stop and joined stays behind as a child process")
         elif not ws or not shm_sd or not kill:
             ctx.violation("C05.R7", fi.qual, loc(fi), "every helper process stopped",
                           f"teardown path (exceptions from {raised or 'none'}): WorkerShutdown x{len(ws)}, shm shutdown x{len(shm_sd)}, data-server kill x{len(kill)} — "
@@ -283,5 +302,11 @@ def r7_teardown(ctx):
         ctx.ok("C05.R7", loc(sa), "LocalServer.atexit -> manager.atexit()")
 
 
+def r_dead_worker_refused(ctx):
+    """a TaskSequence for a worker whose process is gone is refused and reported as ExecutorFailure (rule C02.R9, imported lazily)"""
+    from .C02 import r9_executor_routing
+    r9_executor_routing(ctx)
+
+
 RULES = [r1_raise_not_discard, r2_healthcheck, r3_r6_executor_loop, r4_bridge_failures, r5_task_failure, r7_teardown, r_purge,
-         r1_shutdown_postdominates]
+         r1_shutdown_postdominates, r_dead_worker_refused]
